@@ -12,8 +12,6 @@ package c11
 
 import (
 	"bytes"
-	"os"
-	"strconv"
 	"fmt"
 	"sort"
 	"strings"
@@ -540,9 +538,6 @@ func (ex *lexplorer) dfs(w *lworld, trace []lev, path []int, sleep []lev, devs i
 	}
 	if len(cand) == 0 {
 		ex.pruned++
-		if os.Getenv("VERIF_L2_PROGRESS") != "" && ex.pruned%50000 == 0 {
-			fmt.Fprintf(os.Stderr, "  %d executions, %d pruned, %d events; last pruned: %s\n", ex.execs, ex.pruned, ex.events, traceString(trace))
-		}
 		w.close()
 		return
 	}
@@ -593,9 +588,6 @@ func (ex *lexplorer) dfs(w *lworld, trace []lev, path []int, sleep []lev, devs i
 
 func (ex *lexplorer) leaf(w *lworld, trace []lev) {
 	ex.execs++
-	if os.Getenv("VERIF_L2_PROGRESS") != "" && ex.execs%2000 == 0 {
-		fmt.Fprintf(os.Stderr, "  %d executions, %d pruned, %d events; last: %s\n", ex.execs, ex.pruned, ex.events, traceString(trace))
-	}
 	if len(trace) > ex.maxDepth {
 		ex.maxDepth = len(trace)
 	}
@@ -823,85 +815,3 @@ func parseTrace(s string) ([]lev, error) {
 }
 
 var _ = bytes.Equal
-
-// DebugProtocol prints execution counts per configuration (development aid).
-func DebugProtocol(w interface{ Write([]byte) (int, error) }) {
-	c := vf.New("C11", "quick")
-	for gi, g := range protocolConfigs(c) {
-		if from, _ := strconv.Atoi(os.Getenv("VERIF_L2_FROM")); gi < from {
-			continue
-		}
-		if o := os.Getenv("VERIF_L2_ONLY"); o != "" && o != fmt.Sprint(gi) {
-			continue
-		}
-		t0 := time.Now()
-		ex := &lexplorer{c: c, cfg: g, outcomes: map[string]int{}, samples: map[string]string{}}
-		ex.dfs(newWorld(g), nil, nil, nil, 0)
-		fmt.Fprintf(w, "%s: executions=%d pruned=%d events=%d maxdepth=%d %.1fs\n", g, ex.execs, ex.pruned, ex.events, ex.maxDepth, time.Since(t0).Seconds())
-		var ks []string
-		for k := range ex.outcomes {
-			ks = append(ks, k)
-		}
-		sort.Strings(ks)
-		for _, k := range ks {
-			fmt.Fprintf(w, "    %6d  %s   e.g. %s\n", ex.outcomes[k], k, ex.samples[k])
-		}
-		for _, v := range c.ViolationKeys() {
-			fmt.Fprintf(w, "    VIOLATION %s\n", v)
-		}
-	}
-}
-
-// DebugOne runs the canonical schedule once and prints it.
-func DebugOne(w interface{ Write([]byte) (int, error) }, fast bool) {
-	g := lcfg{n: 3, t: 2, fast: fast, fault: fault{"none", -1, 0}, bound: 0}
-	t0 := time.Now()
-	wd := newWorld(g)
-	var tr []lev
-	for {
-		en := wd.enabled()
-		if len(en) == 0 {
-			break
-		}
-		t1 := time.Now()
-		wd.apply(en[0])
-		tr = append(tr, en[0])
-		fmt.Fprintf(w, "%-12s %6.1fms  enabled=%d\n", en[0], float64(time.Since(t1).Microseconds())/1000, len(en))
-	}
-	wd.close()
-	fmt.Fprintf(w, "total %.1fms; %s\n", float64(time.Since(t0).Microseconds())/1000, traceString(tr))
-	for _, nd := range wd.nodes {
-		fmt.Fprintf(w, "  node %d: %s\n", nd.pn.idx, canonRes(nd.pn.res, nd.pn.err))
-	}
-}
-
-// DebugTrace replays a schedule and prints the enabled set before every event.
-func DebugTrace(w interface{ Write([]byte) (int, error) }, fast bool, s string) {
-	g := lcfg{n: 3, t: 2, fast: fast, fault: fault{"none", -1, 0}, bound: -1}
-	if o := os.Getenv("VERIF_L2_ONLY"); o != "" {
-		k, _ := strconv.Atoi(o)
-		g = protocolConfigs(vf.New("C11", "quick"))[k]
-	}
-	tr, _ := parseTrace(s)
-	wd := newWorld(g)
-	for _, e := range tr {
-		en := wd.enabled()
-		fmt.Fprintf(w, "enabled %v -> %s\n", en, e)
-		wd.apply(e)
-	}
-	fmt.Fprintf(w, "enabled %v\n", wd.enabled())
-	wd.close()
-	for _, nd := range wd.nodes {
-		fmt.Fprintf(w, "  node %d: %s err=%v\n", nd.pn.idx, canonRes(nd.pn.res, nd.pn.err), nd.pn.err)
-	}
-	for _, p := range wd.board {
-		switch {
-		case p.d != nil:
-			fmt.Fprintf(w, "  %s: %s\n", p.name, canonDeal(p.d))
-		case p.r != nil:
-			fmt.Fprintf(w, "  %s: %s\n", p.name, canonResp(p.r))
-		default:
-			fmt.Fprintf(w, "  %s: %s\n", p.name, canonJust(p.j))
-		}
-	}
-}
